@@ -26,8 +26,20 @@ _prev = {}
 _WS_BACKSLASH_LINE = re.compile(r'^[ \t\f]+\\\r?\n', re.M)
 
 
-def norm_ref(toks):
-    """-> (significant tokens, trivia) ; trivia[i] = comments/NL seen before significant token i"""
+def _span(lines, st, en):
+    if lines is None:
+        return None
+    try:
+        if st[0] == en[0]:
+            return lines[st[0] - 1][st[1]:en[1]]
+        return lines[st[0] - 1][st[1]:] + ''.join(lines[st[0]:en[0] - 1]) + lines[en[0] - 1][:en[1]]
+    except IndexError:
+        return None
+
+
+def norm_ref(toks, lines=None):
+    """-> (significant tokens, trivia) ; trivia[i] = comments/NL seen before significant token i.  An f-string counts as one string;
+    its text is the token's own (<= 3.11) or the source between the start of FSTRING_START and the end of FSTRING_END (3.12+)"""
     out, trivia, pend = [], [], []
     fdepth = 0
     fstart = None
@@ -44,7 +56,7 @@ def norm_ref(toks):
         if typ == 'FSTRING_END':
             fdepth -= 1
             if fdepth == 0:
-                out.append(('STRING', None, fstart))
+                out.append(('STRING', _span(lines, fstart, tuple(en)), fstart))
                 trivia.append(pend)
                 pend = []
             continue
@@ -70,21 +82,28 @@ def norm_parso(toks):
     fdepth = 0
     fstart = None
     fprefix = ''
+    pieces = []
     for t in toks:
         n = t.type.name
         if n == 'FSTRING_START':
             if fdepth == 0:
                 fstart = t.start_pos
                 fprefix = t.prefix
+                pieces = [t.string]
+            else:
+                pieces.append(t.prefix + t.string)
             fdepth += 1
             continue
         if n == 'FSTRING_END':
             fdepth -= 1
+            pieces.append(t.prefix + t.string)
             if fdepth == 0:
-                out.append(('STRING', None, fstart))
+                # the text of the f-string as the pieces spell it (prefix + string of every token between start and end)
+                out.append(('STRING', ''.join(pieces), fstart))
                 prefixes.append(fprefix)
             continue
         if fdepth:
+            pieces.append(t.prefix + t.string)
             continue
         if n in ('INDENT', 'DEDENT', 'ENDMARKER'):
             out.append((n, None, None))
@@ -197,10 +216,10 @@ def judge(ctx, v, text, ref, origin):
         info = harness.exc_info(e)
         ctx.violation('tokenizer_raised', '%s in %s' % (info['type'], info['func']), w, exc=info)
         return
-    a, trivia = norm_ref(ref['toks'])
+    lines = G.split_keep(text)
+    a, trivia = norm_ref(ref['toks'], lines)
     b, prefixes = norm_parso(pt)
     ctx.count('tokens_compared', len(a))
-    lines = G.split_keep(text)
 
     def detail(i):
         """mechanism facts computed from the reference tokens and the text alone"""
